@@ -2,6 +2,7 @@
 set), moves keep the number of spins, reported energy = direct sum over edges and biases."""
 from checks import big_scale
 from checks import api_cov
+from checks import extra_c19unique
 LEAN_TARGETS = ["QmcProps.C19", "drv_c19"]
 BINS = ["c19"]
 
@@ -66,6 +67,7 @@ def main(ck):
             ("witness-worm", "worm-bias-sign-witness"),
             ("witness-asym", "worm-asymmetry-witness"),
             ("witness-tiny", "worm-tolerance-witness"),
+            ("witness-parity", "parity-witness"),
             ("regress-imp", "importance-regression"),
             ("regress-noedges", "no-edges-regression"),
         ]:
@@ -79,8 +81,9 @@ def main(ck):
         ]
         ck.extra_trusted += [
             "kernel extraction in harness/src/bin/c19.rs: the kind of each RNG draw (gen_range(0..n) vs threshold draw) is recognised from the behaviour of the real code on a grid of 129 probe words using the rand 0.8.8 acceptance zone; ambiguous nodes abstain (counted in input_distribution.kern_abstained)",
-            "ergodicity / convergence ('after equilibration') is not a statement about this code and is not proved",
+            "uniqueness of the stationary law and geometric convergence are proved for the {spin+edge} kernels under condition (M) (QmcProps/C19Unique.lean); the executable decision of (M) in Drivers/C19.lean (mixingB) is a 3-line transliteration, not linked by a theorem; outside (M) see known finding F29",
         ]
+    extra_c19unique.run(ck)   # uniqueness of the stationary law / irreducibility condition (M) / parity obstruction (F29)
     api_cov.run(ck, "c19")   # otherwise unexercised public API, model-free oracles of this property
     big_scale.run(ck, "classicalring")   # large-scale regime (>65536 bonds/ops/slots, release semantics): model-free oracles of the property statements
     return ck.finish(RULE)
